@@ -165,6 +165,7 @@ def compare(expected: list, observed: list, tol: float = 1e-9) -> dict | None:
     """expected: [[{t, d, v:{name: numerator}}]] from the specification; observed: canon_frames()."""
     if len(expected) != len(observed):
         return {"what": "number of tables", "expected": len(expected), "observed": len(observed)}
+    first, cols = None, set()
     for i, (es, os_) in enumerate(zip(expected, observed)):
         if len(es) != len(os_):
             return {"what": "number of rows", "table": i, "expected": len(es), "observed": len(os_)}
@@ -177,9 +178,13 @@ def compare(expected: list, observed: list, tol: float = 1e-9) -> dict | None:
             for n, num in ev.items():
                 e = num / er["d"]
                 if not rel_close(e, orow["v"][n], tol):
-                    return {"what": "value", "table": i, "row": j, "name": n, "expected": f"{num}/{er['d']}",
-                            "observed": orow["v"][n]}
-    return None
+                    cols.add(n)
+                    if first is None:
+                        first = {"what": "value", "table": i, "row": j, "name": n, "expected": f"{num}/{er['d']}",
+                                 "observed": orow["v"][n]}
+    if first is not None:
+        first["columns"] = sorted(cols)     # every column with a wrong value somewhere in this answer
+    return first
 
 
 def replay_sequence(table: dict, seq: list[int], via: str, seed, tol: float) -> dict | None:
@@ -207,18 +212,19 @@ def replay_sequence(table: dict, seq: list[int], via: str, seed, tol: float) -> 
 # ---------------------------------------------------------------------------------------------------
 # finding keys: from the SHAPE of the failing read
 # ---------------------------------------------------------------------------------------------------
-def _state_dependent(content: dict, var: str) -> bool:
-    """Does some flux touch ``var`` with a computed coefficient that is not a function of parameters only?"""
+def state_dependent_fluxes(content: dict, var: str) -> set[str]:
+    """Fluxes touching ``var`` with a computed coefficient that is not a function of parameters only."""
     parlike = set(content["pars"]) | {d for d, c in content["der"].items()
                                       if all(a in content["pars"] for a in c["args"])}
-    sts = [r["st"] for r in content["rxn"].values()]
+    sts = {n: r["st"] for n, r in content["rxn"].items()}
     for s in content["sur"].values():
-        sts += list(s["st"].values())
-    for st in sts:
+        sts.update(s["st"])
+    out = set()
+    for flux, st in sts.items():
         co = st.get(var)
         if co and co["k"] == "calc" and not all(a in parlike for a in co["args"]):
-            return True
-    return False
+            out.add(flux)
+    return out
 
 
 def classify(content: dict, res: dict, op: dict, detail: dict) -> str | None:
@@ -229,9 +235,11 @@ def classify(content: dict, res: dict, op: dict, detail: dict) -> str | None:
             return "per-row-normalise"
         if detail.get("what") == "number of tables" and detail.get("observed") == 0:
             return "per-row-normalise"
-    if op.get("view") in ("producers", "consumers") and op.get("scaled") and _state_dependent(content, op["v"]) \
-            and detail.get("what") == "value":
-        return "scaled-state-dependent-coefficient"
+    if op.get("view") in ("producers", "consumers") and op.get("scaled") and detail.get("what") == "value":
+        # only the columns whose coefficient is state-dependent may be wrong
+        cols = set(detail["columns"]) if "columns" in detail else {detail.get("name")}
+        if cols and cols <= state_dependent_fluxes(content, op["v"]):
+            return "scaled-state-dependent-coefficient"
     return None
 
 
